@@ -230,6 +230,10 @@ func curvedShapes() []shape {
 		{mv, 0, 0, mv, ar, 2, 2, 0, 2, 2, 2, ar, ar, 3, 3, 0, 0, 5, 5, ar, ar, 1, 1, 0, 2, 6, 6, ar},                                           // quarters of radius 2 (ccw), 3 (cw), 1 (ccw)
 		{mv, 0, 0, mv, ar, 6, 3, 40 * math.Pi / 180, 0, 9.6, 3.6, ar},                                                                          // long span of a 2:1 ellipse, rotated (the offset of an ellipse is not an ellipse)
 		{mv, 0, 0, mv, ar, 6, 2, 0, 0, 12, 0, ar},                                                                                              // half of a 3:1 ellipse
+		{mv, -3.91704630442835, -3.06355431525226, mv, ar, 5, 4, 0.52359877559829882, 2, 4.61163901509608, 1.86048444980878, ar},               // 160 degrees of a 5x4 ellipse rotated by 30 degrees (axis ratio 1.25)
+		{mv, 4.61163901509608, 1.86048444980878, mv, ar, 5, 4, 0.52359877559829882, 0, -3.91704630442835, -3.06355431525226, ar},               // 160 degrees of a 5x4 ellipse rotated by 30 degrees (axis ratio 1.25)
+		{mv, 0.603509973234811, 4.93603003493118, mv, ar, 5, 4, 1.3089969389957472, 2, -1.94536004920698, -4.5764823907108, ar},                // 160 degrees of a 5x4 ellipse rotated by 75 degrees (axis ratio 1.25)
+		{mv, -2.97735368364245, -2.72153417192659, mv, ar, 5, 4, 2.0943951023931953, 2, 3.8455945719771, 1.21769684012224, ar},                 // 160 degrees of a 5x4 ellipse rotated by 120 degrees (axis ratio 1.25)
 	}
 	var out []shape
 	for _, d := range raw {
